@@ -43,7 +43,8 @@ def addFeature (lists : List (Token × List Nat)) (f : Feature) : List (Token ×
   (tokensFor f).foldl (fun ls t => insertPosting f.id t ls) lists
 
 /-- the search index of a world holding exactly `fs` -/
-def buildIndex (kind : LeafKind) (fs : List Feature) : Index := ⟨kind, fs.foldl addFeature []⟩
+def buildIndex (kind : LeafKind) (fs : List Feature) (names : List String := []) : Index :=
+  { kind := kind, lists := fs.foldl addFeature [], names := names }
 
 /-- `FeatureIDPointBegin` … : `{Type: t, Namespace: "", Value: 0}` -/
 def typeBegin (t : Nat) : Nat := key t 0 0
@@ -95,6 +96,6 @@ def findFeatures (ix : Index) (q : Query) : Except Err (List Nat) :=
   | none => .error .panic
   | some sq =>
     let fuel := ix.total + 1
-    drain (ops fuel (depth sq)) (ix.total + 1) (compile fuel ix sq)
+    drain (ops ix.dom fuel (depth sq)) (ix.total + 1) (compile fuel ix sq)
 
 end B6.Model.FeatureSearch
